@@ -198,6 +198,24 @@ def _simple_key(e):
     return False
 
 
+def _arm_aliases(body):
+    """inside one arm of a sunk lookup:  v = self.<name>  followed only by reads of v (no other store of v in the arm)  ->  the reads name self.<name>"""
+    out = list(body)
+    i = 0
+    while i < len(out):
+        st = out[i]
+        if isinstance(st, ast.Assign) and len(st.targets) == 1 and isinstance(st.targets[0], ast.Name) and isinstance(st.value, ast.Attribute) \
+                and isinstance(st.value.value, ast.Name) and st.value.value.id == 'self':
+            v = st.targets[0].id
+            rest = out[i + 1:]
+            if rest and not any(isinstance(n, ast.Name) and n.id == v and isinstance(n.ctx, (ast.Store, ast.Del)) for t in rest for n in ast.walk(t)) \
+                    and not any(isinstance(n, ast.Attribute) and isinstance(n.ctx, (ast.Store, ast.Del)) and n.attr == st.value.attr for t in rest for n in ast.walk(t)):
+                out = out[:i] + [_Sub({v: st.value}).visit(t) for t in rest]
+                continue
+        i += 1
+    return out
+
+
 class _StructCodecs(ast.NodeTransformer):
     """A precompiled codec `NAME = struct.Struct('<fmt>')` at module or class level (never rebound) is the format string under another
     name: NAME.pack(a, ..) -> struct.pack('<fmt>', a, ..), NAME.unpack(b) -> struct.unpack('<fmt>', b), likewise pack_into / unpack_from /
@@ -371,7 +389,9 @@ class Expander:
             return None
         node, lit, key, default, raises = found
         fnames = {n.name for n in self.tree.body if isinstance(n, ast.FunctionDef)}
-        if not all(isinstance(v, ast.Lambda) or (isinstance(v, ast.Name) and v.id in fnames) for v in lit.values):
+        if all(isinstance(v, ast.Constant) and isinstance(v.value, str) and v.value.isidentifier() for v in lit.values):
+            found = found + ('names',)        # a table of attribute / method names: sunk when the result only names an attribute (see sink)
+        elif not all(isinstance(v, ast.Lambda) or (isinstance(v, ast.Name) and v.id in fnames) for v in lit.values):
             return None
         if default is not None and not (isinstance(default, ast.Constant) and default.value is None):
             return None
@@ -379,11 +399,39 @@ class Expander:
 
     def sink(self, s, rest, found, clsname, fn):
         """x = TABLE.get(K); REST   ->   if K == k1: REST[x := v1] elif ... else: REST[x := None]     (values are callables: REST calls x)"""
-        node, lit, key, default, raises = found
+        node, lit, key, default, raises = found[:5]
         x = s.targets[0].id
         for t in rest:
             for n in ast.walk(t):
                 if isinstance(n, ast.Name) and n.id == x and isinstance(n.ctx, (ast.Store, ast.Del)):
+                    return None
+        if len(found) > 5:
+            # names table: x may only be tested (is None / truth) or name an attribute: getattr(o, x) / setattr(o, x, v) / hasattr(o, x)
+            for t in rest:
+                for n in ast.walk(t):
+                    if not (isinstance(n, ast.Name) and n.id == x):
+                        continue
+                    p_ = getattr(n, '_tp', None)
+            uses = []
+            for t in rest:
+                parents = {}
+                for n in ast.walk(t):
+                    for c in ast.iter_child_nodes(n):
+                        parents[id(c)] = n
+                for n in ast.walk(t):
+                    if isinstance(n, ast.Name) and n.id == x:
+                        uses.append((n, parents.get(id(n))))
+            for n, p_ in uses:
+                ok_ = False
+                if isinstance(p_, ast.Call) and isinstance(p_.func, ast.Name) and p_.func.id in ('getattr', 'setattr', 'hasattr') and len(p_.args) >= 2 and p_.args[1] is n:
+                    ok_ = True
+                if isinstance(p_, ast.Compare) and len(p_.ops) == 1 and isinstance(p_.ops[0], (ast.Is, ast.IsNot)) and p_.left is n:
+                    ok_ = True
+                if isinstance(p_, (ast.If, ast.While)) and p_.test is n:
+                    ok_ = True
+                if isinstance(p_, ast.UnaryOp) and isinstance(p_.op, ast.Not):
+                    ok_ = True
+                if not ok_:
                     return None
 
         fnames = {n.name for n in self.tree.body if isinstance(n, ast.FunctionDef)}
@@ -394,12 +442,16 @@ class Expander:
                 nt = _Simplify(fnames).visit(_Sub({x: val}).visit(copy.deepcopy(t)))
                 if nt is None:
                     continue
+                if len(found) > 5:
+                    nt = [_ConstStrings().visit(_Getattr().visit(y)) for y in (nt if isinstance(nt, list) else [nt])]
                 for y in (nt if isinstance(nt, list) else [nt]):
                     body.append(y)
                     if isinstance(y, (ast.Return, ast.Raise)):
                         break          # what follows is dead in this arm
                 if body and isinstance(body[-1], (ast.Return, ast.Raise)):
                     break
+            if len(found) > 5:
+                body = _arm_aliases(body)
             return self.block(body, clsname, fn) or [ast.copy_location(ast.Pass(), s)]
         if raises:
             tail = [ast.copy_location(ast.Raise(exc=ast.Call(func=ast.Name(id='KeyError', ctx=ast.Load()), args=[copy.deepcopy(key)], keywords=[]), cause=None), s)]
@@ -695,6 +747,8 @@ class _Simplify(ast.NodeTransformer):
                 return ast.copy_location(ast.Constant(value=isinstance(node.ops[0], ast.IsNot)), node)
             if isinstance(l, ast.Constant) and l.value is None:
                 return ast.copy_location(ast.Constant(value=isinstance(node.ops[0], ast.Is)), node)
+            if isinstance(l, ast.Constant) and isinstance(l.value, (str, int, bytes)):
+                return ast.copy_location(ast.Constant(value=isinstance(node.ops[0], ast.IsNot)), node)
         return node
 
     NEG = {ast.Eq: ast.NotEq, ast.NotEq: ast.Eq, ast.Is: ast.IsNot, ast.IsNot: ast.Is, ast.In: ast.NotIn, ast.NotIn: ast.In}
